@@ -22,18 +22,25 @@ import (
 // C12 — every client request resolves exactly once, whatever the server does.
 
 type c12Case struct {
-	N       int      `json:"n"`                 // requests
-	Bodies  []int    `json:"bodies"`            // request body sizes
-	RespLen []int    `json:"resplen"`           // response body sizes
-	Splits  []int    `json:"splits,omitempty"`  // response header block cuts
-	Muts    []c17Mut `json:"muts,omitempty"`    // frame-wise mutations of the recorded response stream
-	Adv     string   `json:"adv,omitempty"`     // scripted adversary inserted into the stream
-	AdvAt   int      `json:"advat,omitempty"`   // frame index where it goes
-	CutAt   int      `json:"cut"`               // deliver this many octets of the response stream (mod len+1); -1 all
-	End     string   `json:"end"`               // after the (possibly cut) stream: "silence", "close", "reset"
-	FailW   int      `json:"failw,omitempty"`   // >0: the client's writes fail after this many octets
-	CloseAt int      `json:"closeat,omitempty"` // Client.Close(): 0 never, 1 before the requests are answered, 2 after the stream was delivered, 3 concurrently with new RoundTrips
-	Follow  int      `json:"follow"`            // follow-up requests on a fresh connection afterwards
+	N       int      `json:"n"`                // requests
+	Bodies  []int    `json:"bodies"`           // request body sizes
+	RespLen []int    `json:"resplen"`          // response body sizes
+	Splits  []int    `json:"splits,omitempty"` // response header block cuts
+	Muts    []c17Mut `json:"muts,omitempty"`   // frame-wise mutations of the recorded response stream
+	Adv     string   `json:"adv,omitempty"`    // scripted adversary inserted into the stream
+	AdvAt   int      `json:"advat,omitempty"`  // frame index where it goes
+	CutAt   int      `json:"cut"`              // deliver this many octets of the response stream (mod len+1); -1 all
+	End     string   `json:"end"`              // after the (possibly cut) stream: "silence", "close", "reset"
+	FailW   int      `json:"failw,omitempty"`  // >0: the client's writes fail after this many octets
+	// >0: the client's writes fail after this many further octets, counted from
+	// the moment the server's stream is delivered (so the failure hits replies:
+	// acknowledgements, WINDOW_UPDATE, RST_STREAM)
+	FailLate int `json:"faillate,omitempty"`
+	// the server's TLS layer writes 16 KiB records from the start (no dynamic
+	// record sizing), so hundreds of small frames sit in the client's buffer at once
+	BigRec  bool `json:"bigrec,omitempty"`
+	CloseAt int  `json:"closeat,omitempty"` // Client.Close(): 0 never, 1 before the requests are answered, 2 after the stream was delivered, 3 concurrently with new RoundTrips
+	Follow  int  `json:"follow"`            // follow-up requests on a fresh connection afterwards
 }
 
 const c12Timeout = 250 * time.Millisecond
@@ -182,7 +189,7 @@ func c12Reference(b []byte) (map[uint32]*c12Model, bool) {
 }
 
 func c12Run(c c12Case) Outcome {
-	env, err := speer.NewEnv(http2.ClientOpts{PingInterval: time.Hour, MaxResponseTime: c12Timeout})
+	env, err := speer.NewEnv(http2.ClientOpts{PingInterval: time.Hour, MaxResponseTime: c12Timeout}, speer.ConnPlan{BigRecords: c.BigRec})
 	if err != nil {
 		return Outcome{Inconcl: "cannot set the client up: " + err.Error()}
 	}
@@ -270,7 +277,7 @@ func c12Run(c c12Case) Outcome {
 		case "unknown-frame":
 			adv = rawframe.Append(nil, 0x42, 0xff, anyID, []byte("whatever"))
 		case "ping-flood":
-			for i := 0; i < 300; i++ {
+			for i := 0; i < 300+400*(c.AdvAt%2); i++ {
 				adv = rawframe.Append(adv, rawframe.Ping, 0, 0, make([]byte, 8))
 			}
 		}
@@ -292,6 +299,9 @@ func c12Run(c c12Case) Outcome {
 	}
 	delivered := stream[:n]
 	ref, connDead := c12Reference(delivered)
+	if c.FailLate > 0 {
+		sc.CliRaw.FailWritesAfter(sc.CliRaw.Written() + int64(c.FailLate))
+	}
 	_ = sc.Write(delivered)
 	switch c.End {
 	case "close":
@@ -322,7 +332,7 @@ func c12Run(c c12Case) Outcome {
 	for !allDone() && time.Now().Before(deadline) {
 		time.Sleep(300 * time.Microsecond)
 	}
-	desc := fmt.Sprintf("server stream of %d octets (%d delivered, %d mutations, adversary %q at %d) then %s, closeAt=%d failw=%d", len(stream), n, len(c.Muts), c.Adv, c.AdvAt, c.End, c.CloseAt, c.FailW)
+	desc := fmt.Sprintf("server stream of %d octets (%d delivered, %d mutations, adversary %q at %d) then %s, closeAt=%d failw=%d faillate=%d", len(stream), n, len(c.Muts), c.Adv, c.AdvAt, c.End, c.CloseAt, c.FailW, c.FailLate)
 	if !allDone() {
 		gs := speer.ClientGoroutines()
 		dump := ""
@@ -481,8 +491,12 @@ func c12Gen(t *rapid.T) c12Case {
 	if rapid.Bool().Draw(t, "split") {
 		c.Splits = []int{rapid.IntRange(1, 80).Draw(t, "splitat")}
 	}
+	c.BigRec = rapid.Bool().Draw(t, "bigrec")
 	switch rapid.IntRange(0, 5).Draw(t, "kind") {
 	case 0: // pure cut
+		if rapid.IntRange(0, 3).Draw(t, "cutfail") == 0 {
+			c.FailLate = rapid.OneOf(rapid.IntRange(1, 40), rapid.IntRange(1, 3000)).Draw(t, "faillate")
+		}
 	case 1: // mutations
 		nm := rapid.IntRange(1, 3).Draw(t, "nmut")
 		for i := 0; i < nm; i++ {
@@ -490,8 +504,11 @@ func c12Gen(t *rapid.T) c12Case {
 				I: rapid.IntRange(0, 40).Draw(t, "mi"), J: rapid.IntRange(0, 5000).Draw(t, "mj"), V: rapid.IntRange(0, 255).Draw(t, "mv")})
 		}
 	case 2, 3:
-		c.Adv = rapid.SampledFrom([]string{"rst", "goaway", "oversized", "hpack-garbage", "push", "idle-stream", "wu-overflow", "settings-bad", "unknown-frame", "ping-flood"}).Draw(t, "adv")
+		c.Adv = rapid.SampledFrom([]string{"rst", "goaway", "oversized", "hpack-garbage", "push", "idle-stream", "wu-overflow", "settings-bad", "unknown-frame", "ping-flood", "ping-flood"}).Draw(t, "adv")
 		c.AdvAt = rapid.IntRange(0, 30).Draw(t, "advat")
+		if rapid.IntRange(0, 2).Draw(t, "advfail") == 0 {
+			c.FailLate = rapid.OneOf(rapid.IntRange(1, 40), rapid.IntRange(1, 3000)).Draw(t, "faillate")
+		}
 	case 4:
 		c.CloseAt = rapid.IntRange(1, 3).Draw(t, "closeat")
 	default:
@@ -502,7 +519,7 @@ func c12Gen(t *rapid.T) c12Case {
 
 func TestC12(t *testing.T) {
 	s := newSuite(t, "C12",
-		"1..4 requests (bodies 0..70000) through RoundTrip with MaxResponseTime 250 ms to a scripted TLS server whose well-formed response stream (split header blocks, DATA chunked, shared HPACK entries) is recorded and then: delivered up to any octet (incl. inside a frame) or entirely; mutated frame-wise (duplicate, delete, swap, bit flip, lying length, type/flags/stream-id change); or extended with a scripted adversary at any frame position (RST_STREAM, GOAWAY, oversized frame, HPACK garbage, unsolicited PUSH_PROMISE, DATA on an idle stream, WINDOW_UPDATE overflow, invalid SETTINGS, unknown frame type, 300 PINGs); followed by silence, close or reset; or with the client's own writes failing from any octet; or with Client.Close() fired before the answers, after them, or concurrently with further RoundTrips. Oracle: every RoundTrip returns exactly once within MaxResponseTime plus a margin (a miss is reported with the client's goroutine dump); a success carries exactly the complete well-formed response an independent parser (x/net Framer + strict reference HPACK) finds on that stream in the delivered octets; nothing succeeds after Close without an answer; a follow-up batch on a fresh connection gets its own responses; after Close no loop of the client remains; the process survives (crash journal). Non-trivial = cut inside a frame, a mutation, an adversary, or Close racing requests; distinct by case hash.")
+		"1..4 requests (bodies 0..70000) through RoundTrip with MaxResponseTime 250 ms to a scripted TLS server whose well-formed response stream (split header blocks, DATA chunked, shared HPACK entries) is recorded and then: delivered up to any octet (incl. inside a frame) or entirely; mutated frame-wise (duplicate, delete, swap, bit flip, lying length, type/flags/stream-id change); or extended with a scripted adversary at any frame position (RST_STREAM, GOAWAY, oversized frame, HPACK garbage, unsolicited PUSH_PROMISE, DATA on an idle stream, WINDOW_UPDATE overflow, invalid SETTINGS, unknown frame type, 300 or 700 PINGs); followed by silence, close or reset; or with the client's own writes failing from any octet, counted from the start or from the moment the server's stream is delivered (so that replies hit the failure); or with Client.Close() fired before the answers, after them, or concurrently with further RoundTrips. Oracle: every RoundTrip returns exactly once within MaxResponseTime plus a margin (a miss is reported with the client's goroutine dump); a success carries exactly the complete well-formed response an independent parser (x/net Framer + strict reference HPACK) finds on that stream in the delivered octets; nothing succeeds after Close without an answer; a follow-up batch on a fresh connection gets its own responses; after Close no loop of the client remains; the process survives (crash journal). Non-trivial = cut inside a frame, a mutation, an adversary, or Close racing requests; distinct by case hash.")
 	defer s.finish()
 	runLane(s, Lane[c12Case]{Name: "faults", Journal: true, Quick: 500, Thor: 30000, Gen: c12Gen, Run: c12Run})
 }
